@@ -40,6 +40,27 @@ def run(v):
         if f is None:
             raise ToolError("deviation class %s is not an open finding" % dname)
         v.known(f["id"], "%s: %s (%d vectors of this run inside the class)" % (f["id"], f["what"], cnt))
+    # ---- the wire primitives over arbitrary-precision numbers (every 64-bit boundary) ----
+    d = vlib.outdir("C17")
+    ks = [0, 6, 7, 8, 13, 14, 15, 20, 21, 27, 28, 29, 30, 31, 32, 33, 34, 35, 41, 42, 48, 49, 55, 56, 62, 63, 64] if v.tier == "quick" else list(range(0, 65))
+    pvec = os.path.join(d, "protoprim.ndjson")
+    tp = vlib.run_tlc("C17", "MC_ProtoPrim", "SPECIFICATION Spec\nCONSTANTS\n  KS = {%s}\n  Small = %d\nINVARIANTS RoundTrip Emit\nCHECK_DEADLOCK FALSE\n"
+                      % (", ".join(map(str, ks)), 5 if v.tier == "quick" else 300), replay_to=pvec, coverage=False, heap="4g")
+    if tp.violation:
+        raise ToolError("ProtoPrim.tla violates its own round trip: " + tp.violation)
+    v.add_tlc("MC_ProtoPrim", tp)
+    pres = os.path.join(d, "protoprim.res")
+    pp = vlib.run_bin("replay", ["protoprim", pvec, pres])
+    if pp.returncode != 0:
+        raise ToolError("replay protoprim failed: " + pp.stderr[-1000:])
+    prows = vlib.read_ndjson(pres)
+    if prows[-1]["cases"] != tp.nreplay:
+        raise ToolError("protoprim replay incomplete")
+    for i, r in enumerate(prows[:-1]):
+        v.violation("protobuf primitive %s (%s): %s" % (r["case"]["k"], r["v_dec"], r["why"][:250]), r, "protoprim_%03d.json" % i)
+    v.cov["traces_validated_against_impl"] += prows[-1]["cases"]
+    v.cov["evaluations"] += prows[-1]["cases"]
+    v.cov["protobuf_primitive_cases"] = prows[-1]["cases"]
     v.cov["replay_stats"] = stats
     v.cov["traces_validated_against_impl"] += ncases
     v.cov["evaluations"] += ncases
@@ -50,11 +71,14 @@ def run(v):
                      "the all-zero value, and a boundary sweep through every component (varint length classes 127/128 .. 2^28, zig-zag bit 31 at "
                      "+-2^30, i32 extremes, lengths 0/1/127/128/300): %d vectors (distinct TLC states). Real ProtobufWriter with the growable and "
                      "with the fixed-slice back end must produce identical bytes; ProtobufReader must return a value equal to the original up "
-                     "to proto3 default equivalence; every case runs under a watchdog / allocation limit. Non-trivial = vectors that round-trip."
+                     "to proto3 default equivalence; every case runs under a watchdog / allocation limit. Non-trivial = vectors that round-trip. "
+                     "Primitive level (ProtoPrim.tla over arbitrary-precision numbers): varint / uint32 / sint32 / sint64 (zig-zag) / sfixed32 / tag / "
+                     "bool at 2^k, 2^k +- 1 for k up to 64 and both signs: the real ProtoWrite must emit exactly the specified octets, ProtoRead must "
+                     "return the value and consume exactly these octets."
                      % (len(zoo), t.nvec))
     v.cov["samples"] = vlib.sample_ndjson(vec, 4, v.seed)
     v.cov["checker_cmd"] = "tlc MC_Proto; zoogen + cargo build (zoo_proto); vzoo proto (sandboxed)"
-    v.assumptions += ["64-bit values beyond 2^31-1 are not in the value family (TLC integers); the width classes are exercised by their bounds"]
+    v.assumptions += ["at the type level 64-bit values beyond 2^31-1 are not in the value family (TLC integers); they are covered at the primitive level (ProtoPrim.tla)"]
 
 
 def replay(path):
